@@ -160,21 +160,29 @@ impl KIterator {
     ///
     /// See [KotoIterator::make_copy]
     pub fn make_copy(&self) -> Result<Self> {
-        self.0.borrow().make_copy()
+        match self.0.try_borrow() {
+            Some(iterator) => iterator.make_copy(),
+            None => Err(iterator_in_use_error()),
+        }
     }
 
     /// Returns true if the iterator supports reversed iteration via `next_back`
     ///
     /// See [KotoIterator::is_bidirectional]
     pub fn is_bidirectional(&self) -> bool {
-        self.0.borrow().is_bidirectional()
+        self.0
+            .try_borrow()
+            .is_some_and(|iterator| iterator.is_bidirectional())
     }
 
     /// Returns the next item produced by iterating backwards
     ///
     /// See [KotoIterator::next_back]
     pub fn next_back(&mut self) -> Option<KIteratorOutput> {
-        self.0.borrow_mut().next_back()
+        match self.0.try_borrow_mut() {
+            Some(mut iterator) => iterator.next_back(),
+            None => Some(KIteratorOutput::Error(iterator_in_use_error())),
+        }
     }
 
     /// Mutably borrows the underlying iterator, allowing repeated iterations with a single borrow
@@ -182,7 +190,10 @@ impl KIterator {
         &mut self,
         mut f: impl FnMut(&mut dyn KotoIterator) -> Option<KIteratorOutput>,
     ) -> Option<KIteratorOutput> {
-        f(self.0.borrow_mut().deref_mut())
+        match self.0.try_borrow_mut() {
+            Some(mut iterator) => f(iterator.deref_mut()),
+            None => Some(KIteratorOutput::Error(iterator_in_use_error())),
+        }
     }
 }
 
@@ -190,12 +201,25 @@ impl Iterator for KIterator {
     type Item = KIteratorOutput;
 
     fn next(&mut self) -> Option<Self::Item> {
-        self.0.borrow_mut().next()
+        match self.0.try_borrow_mut() {
+            Some(mut iterator) => iterator.next(),
+            None => Some(KIteratorOutput::Error(iterator_in_use_error())),
+        }
     }
 
     fn size_hint(&self) -> (usize, Option<usize>) {
-        self.0.borrow().size_hint()
+        match self.0.try_borrow() {
+            Some(iterator) => iterator.size_hint(),
+            None => (0, None),
+        }
     }
+}
+
+// An iterator is borrowed while it's being advanced. A function that's called during the iteration
+// (e.g. the function passed to `fold` or `each`) can hold the same iterator and try to advance it,
+// which is reported as an error instead of panicking (or deadlocking) in the nested borrow.
+fn iterator_in_use_error() -> Error {
+    Error::from("the iterator is already in use (it's being advanced by the caller of this function)")
 }
 
 impl fmt::Debug for KIterator {
